@@ -250,8 +250,10 @@ func c16Ctor(c *Ctx, ctor *Func) {
 			}
 			k, _ := constant.Int64Val(kv.Value)
 			// which signature constants are possible here?
+			// any mention of the signature variable will do to name it (it is tested where the closure is built as
+			// well as inside it; facts of the creation point hold inside for variables never assigned afterwards)
 			var sigUse ast.Expr
-			ast.Inspect(lit.Body, func(q ast.Node) bool {
+			ast.Inspect(ctor.Body, func(q ast.Node) bool {
 				if id, ok := q.(*ast.Ident); ok && info.Uses[id] == sigObj && sigUse == nil {
 					sigUse = id
 				}
@@ -1261,7 +1263,7 @@ func c16Accessors(c *Ctx, ctors []*Func) {
 					}
 					_ = consts
 					var sigUse ast.Expr
-					ast.Inspect(f.Body, func(q ast.Node) bool {
+					ast.Inspect(w.rootOf(f).Body, func(q ast.Node) bool {
 						if id, ok := q.(*ast.Ident); ok && info.Uses[id] == sigObj && sigUse == nil {
 							sigUse = id
 						}
